@@ -81,9 +81,12 @@ def dec2dms(x):
     else:
         sign = '+'
     x = abs(x)
-    d = int(math.floor(x))
-    m = int(math.floor((x - d) * 60))
-    s = float(((x - d) * 60 - m) * 60)
+    # round to the printed precision before splitting into fields,
+    # so that 59.995+ seconds carry into the minutes/degrees
+    total = int(round(x * 360000))
+    d, rem = divmod(total, 360000)
+    m, s = divmod(rem, 6000)
+    s = s / 100.0
     return '{0}{1:02d}:{2:02d}:{3:05.2f}'.format(sign, d, m, s)
 
 
@@ -107,11 +110,13 @@ def dec2hms(x):
     # wrap negative RA's
     if x < 0:
         x += 360
-    x /= 15.0
-    h = int(x)
-    x = (x - h) * 60
-    m = int(x)
-    s = (x - m) * 60
+    # round to the printed precision before splitting into fields,
+    # so that 59.995+ seconds carry into the minutes/hours (and 24h -> 0h)
+    total = int(round(x * 24000))
+    h, rem = divmod(total, 360000)
+    m, s = divmod(rem, 6000)
+    h %= 24
+    s = s / 100.0
     return '{0:02d}:{1:02d}:{2:05.2f}'.format(h, m, s)
 
 
